@@ -17,6 +17,8 @@ CONSTANTS Reqs,       \* request tags, 1..R
           N,          \* configured request cache size
           SndTo, RcvTo, ConTo,   \* timeouts (seconds); 0 = immediate
           MaxReq,     \* requests per one-second round
+          ConfReqs,   \* the request tags (a subset of Reqs) that are CONFIGURATION requests: no identifier, not in the request cache; the client has one
+                      \* slot for them (serverConf), which also holds a configuration the server pushed without being asked
           Http        \* FALSE: the TCP async client (one stream); TRUE: the HTTP async client (net_http_curl_async.c): one HTTP exchange per request
 
 VARIABLES st,      \* r -> "new" | "queued" | "sent" | "resp" | "err" | "done" | "refused"
@@ -38,13 +40,16 @@ VARIABLES st,      \* r -> "new" | "queued" | "sent" | "resp" | "err" | "done" |
           ret,     \* ghost: r -> number of times handed back
           early,   \* ghost: r -> a valid reply with r's id was read from the stream while r was still waiting to be sent
           arrived, \* ghost: r -> a valid status-0 reply with r's id was read from the stream while r was "sent"
+          pushed,  \* the configuration slot holds an unsolicited (pushed) configuration that has not been handed to the caller yet
+          cfg,     \* the configuration value held by the slot's handle (0 = none): the answer to the configuration request, or the LATEST push
           xdone,   \* HTTP, environment: requests whose exchange has completed (each exchange completes at most once)
           out      \* observation: what the last public call returned
 
-vars == <<st, id, addT, sndT, cause, sigok, sendq, respq, wire, conn, connT, rStart, rCount, peer, pollm, openm, clock, usedIds, ret, arrived, early, xdone, out>>
+vars == <<st, id, addT, sndT, cause, sigok, sendq, respq, wire, conn, connT, rStart, rCount, peer, pollm, openm, clock, usedIds, ret, arrived, early, pushed, cfg, xdone, out>>
 
 Live == {"queued", "sent", "resp", "err"}
 Outstanding(s) == {r \in Reqs : s[r] \in Live}
+LiveConf(s) == {r \in ConfReqs : s[r] \in Live}            \* the configuration request that occupies the slot (at most one)
 NoCause == <<"-", 0>>
 
 Init == /\ st = [r \in Reqs |-> "new"] /\ id = [r \in Reqs |-> 0]
@@ -54,7 +59,7 @@ Init == /\ st = [r \in Reqs |-> "new"] /\ id = [r \in Reqs |-> 0]
         /\ conn = "none" /\ connT = 0 /\ rStart = -1000 /\ rCount = 0
         /\ peer = "open" /\ pollm = "ready" /\ openm = "ok" /\ clock = 0
         /\ usedIds = {} /\ ret = [r \in Reqs |-> 0] /\ arrived = [r \in Reqs |-> FALSE] /\ early = [r \in Reqs |-> FALSE]
-        /\ xdone = {}
+        /\ xdone = {} /\ pushed = FALSE /\ cfg = 0
         /\ out = [op |-> "init"]
 
 (* ------------------------------------------------------------------ Add *)
@@ -62,10 +67,24 @@ Init == /\ st = [r \in Reqs |-> "new"] /\ id = [r \in Reqs |-> 0]
 (* otherwise the request gets an identifier never used before and joins the transport's send queue.          *)
 Add(r, newId) ==
     /\ st[r] = "new"
-    /\ IF Cardinality(Outstanding(st)) = N
+    /\ IF r \in ConfReqs
+         THEN \* a configuration request: refused (invalid state) while another one has not been handed back -- its reply bears no identifier, so the
+              \* two could not be told apart, and the slot holds one (the unrepaired code silently dropped the earlier request: finding F-C13-6);
+              \* otherwise it takes the slot (a pushed configuration waiting there is superseded) and joins the send queue
+              IF LiveConf(st) # {}
+                THEN /\ st' = [st EXCEPT ![r] = "refused"]
+                     /\ out' = [op |-> "add", r |-> r, rc |-> "STATE", id |-> 0]
+                     /\ UNCHANGED <<id, addT, sendq, usedIds, pushed, cfg>>
+                ELSE /\ st' = [st EXCEPT ![r] = "queued"]
+                     /\ addT' = [addT EXCEPT ![r] = clock]
+                     /\ sendq' = Append(sendq, r)
+                     /\ pushed' = FALSE /\ cfg' = 0
+                     /\ out' = [op |-> "add", r |-> r, rc |-> "OK", id |-> 0]
+                     /\ UNCHANGED <<id, usedIds>>
+         ELSE IF Cardinality(Outstanding(st) \ ConfReqs) = N
          THEN /\ st' = [st EXCEPT ![r] = "refused"]
               /\ out' = [op |-> "add", r |-> r, rc |-> "FULL", id |-> 0]
-              /\ UNCHANGED <<id, addT, sendq, usedIds>>
+              /\ UNCHANGED <<id, addT, sendq, usedIds, pushed, cfg>>
          ELSE /\ newId \notin usedIds /\ newId > 0
               /\ st' = [st EXCEPT ![r] = "queued"]
               /\ id' = [id EXCEPT ![r] = newId]
@@ -73,18 +92,22 @@ Add(r, newId) ==
               /\ sendq' = Append(sendq, r)
               /\ usedIds' = usedIds \cup {newId}
               /\ out' = [op |-> "add", r |-> r, rc |-> "OK", id |-> newId]
+              /\ UNCHANGED <<pushed, cfg>>
     /\ UNCHANGED <<sndT, cause, sigok, respq, wire, conn, connT, rStart, rCount, peer, pollm, openm, clock, ret, arrived, early, xdone>>
 
 (* ------------------------------------------------------------------ Run, as a pipeline over a record *)
 Rec == [st |-> st, sndT |-> sndT, cause |-> cause, sigok |-> sigok, sendq |-> sendq, respq |-> respq, wire |-> wire,
-        conn |-> conn, connT |-> connT, rStart |-> rStart, rCount |-> rCount, arrived |-> arrived, early |-> early, peer |-> peer]
+        conn |-> conn, connT |-> connT, rStart |-> rStart, rCount |-> rCount, arrived |-> arrived, early |-> early, peer |-> peer,
+        pushed |-> pushed, cfg |-> cfg]
 
 SetErr(S, rs, c) == [S EXCEPT !.st = [r \in Reqs |-> IF r \in rs THEN "err" ELSE @[r]],
                               !.cause = [r \in Reqs |-> IF r \in rs THEN c ELSE @[r]]]
 SentSet(S) == {r \in Reqs : S.st[r] = "sent"}
 InQueue(S) == {S.sendq[i] : i \in DOMAIN S.sendq}
 (* reqQueue_clearWithError: everything still in the send queue fails with c *)
-ClearQ(S, c) == [SetErr(S, InQueue(S), c) EXCEPT !.sendq = <<>>]
+(* (a configuration request may have been answered -- by a configuration that overtook it -- and handed back while it was still queued: the       *)
+(* transport then only drops its own reference; what it writes into that handle is no longer the service's business)                            *)
+ClearQ(S, c) == [SetErr(S, {r \in InQueue(S) : S.st[r] # "done"}, c) EXCEPT !.sendq = <<>>]
 (* closeSocket: a new connection starts with an empty stream; the response queue survives *)
 CloseSock(S) == [S EXCEPT !.conn = "none", !.wire = <<>>, !.peer = "open"]
 
@@ -108,8 +131,8 @@ ExpireQueued(S) ==
     IN [SetErr(S, {S.sendq[i] : i \in {j \in DOMAIN S.sendq : late(S.sendq[j])}}, <<"sndto", 0>>) EXCEPT !.sendq = keep]
 
 (* net_tcp_async.c:286-374 -- read everything the server wrote; a peer close / reset ends the connection *)
-GoodFor(S, m) == {r \in Reqs : S.st[r] = "sent" /\ m.k = "resp" /\ m.id = id[r] /\ m.status = 0}
-EarlyFor(S, m) == {r \in Reqs : S.st[r] = "queued" /\ m.k = "resp" /\ m.id = id[r] /\ m.status = 0}
+GoodFor(S, m) == {r \in Reqs \ ConfReqs : S.st[r] = "sent" /\ m.k = "resp" /\ m.id = id[r] /\ m.status = 0}
+EarlyFor(S, m) == {r \in Reqs \ ConfReqs : S.st[r] = "queued" /\ m.k = "resp" /\ m.id = id[r] /\ m.status = 0}
 Input(S) ==
     LET got == [S EXCEPT !.respq = @ \o S.wire, !.wire = <<>>,
                          !.arrived = [r \in Reqs |-> @[r] \/ \E i \in DOMAIN S.wire : r \in GoodFor(S, S.wire[i])],
@@ -179,8 +202,14 @@ DispatchHttp(S) == LET o == OutputHttp([S EXCEPT !.wire = <<>>]) IN
                                ELSE [s |-> [CompleteAll(o.s, S.wire) EXCEPT !.wire = <<>>], closed |-> FALSE]
 
 (* net_async.c:1143-1286 -- process the response queue in arrival order *)
-Owner(S, m) == {r \in Reqs : S.st[r] \in Live /\ id[r] = m.id}
-RECURSIVE Process(_, _)
+Owner(S, m) == {r \in Reqs \ ConfReqs : S.st[r] \in Live /\ id[r] = m.id}
+(* asyncClient_handleServerConfig: an authenticated PDU carries a configuration payload (m.conf > 0; alone -- m.k = "conf" -- or next to a response).   *)
+(* If a configuration request occupies the slot it is answered, in whatever state it is (a reply may even overtake the request), and a later         *)
+(* configuration replaces the stored one; otherwise the configuration is kept as a push for the caller -- one handle, the latest value.              *)
+HandleConf(S, v) == LET L == {r \in ConfReqs : S.st[r] \in Live} IN
+                    IF L # {} THEN [S EXCEPT !.st[CHOOSE x \in L : TRUE] = "resp", !.cfg = v]
+                              ELSE [S EXCEPT !.pushed = TRUE, !.cfg = v]
+RECURSIVE Process(_, _), ProcessResp(_, _, _)
 Process(S, errp) ==
     IF S.respq = <<>>
       THEN IF errp >= 0 THEN SetErr(S, SentSet(S), <<"service", errp>>) ELSE S
@@ -189,7 +218,11 @@ Process(S, errp) ==
            IN CASE m.k = "garbage" -> SetErr(S1, SentSet(S1), <<"parse", 0>>)       \* abort: the rest stays queued (FanOutErrorToAllWaiting)
                 [] m.k = "badmac"  -> SetErr(S1, SentSet(S1), <<"hmac", 0>>)
                 [] m.k = "errpdu"  -> Process(S1, m.status)                  \* kept until the queue is drained
+                [] m.k = "conf" -> Process(HandleConf(S1, m.conf), errp)
                 [] OTHER ->
+                     LET S1c == IF m.conf > 0 THEN HandleConf(S1, m.conf) ELSE S1 IN ProcessResp(S1c, m, errp)
+
+ProcessResp(S1, m, errp) ==
                      LET T == Owner(S1, m) IN
                      IF T = {} THEN Process(S1, errp)
                      ELSE LET r == CHOOSE x \in T : TRUE IN
@@ -206,30 +239,35 @@ AfterRun == LET d == IF Http THEN DispatchHttp(Rec) ELSE Dispatch(Rec)
 (* net_async.c:1318-1399 -- handles that may be handed back now *)
 TimedOut(S, r) == S.st[r] = "sent" /\ (RcvTo = 0 \/ clock - S.sndT[r] > RcvTo)
 Finished(S) == {r \in Reqs : S.st[r] \in {"err", "resp"} \/ TimedOut(S, r)}
+(* asyncClient_findNextResponse looks at the configuration slot FIRST: a finished configuration request, or a pushed configuration (h = -1) *)
+SlotFinished(S) == IF S.pushed THEN {-1} ELSE Finished(S) \cap ConfReqs
 
 Commit(S, h) ==
-    LET S2 == IF h # 0 /\ TimedOut(S, h) THEN SetErr(S, {h}, <<"rcvto", 0>>) ELSE S
-        hs == IF h = 0 THEN "-" ELSE S2.st[h]
-        stF == IF h = 0 THEN S2.st ELSE [S2.st EXCEPT ![h] = "done"]
+    LET S2 == IF h > 0 /\ TimedOut(S, h) THEN SetErr(S, {h}, <<"rcvto", 0>>) ELSE S
+        hs == IF h = 0 THEN "-" ELSE IF h = -1 THEN "push" ELSE IF h \in ConfReqs /\ S2.st[h] = "resp" THEN "conf" ELSE S2.st[h]
+        stF == IF h <= 0 THEN S2.st ELSE [S2.st EXCEPT ![h] = "done"]
+        pushedF == IF h = -1 THEN FALSE ELSE S2.pushed
     IN /\ st' = stF /\ sndT' = S2.sndT /\ cause' = S2.cause /\ sigok' = S2.sigok /\ sendq' = S2.sendq
        /\ respq' = S2.respq /\ wire' = S2.wire /\ conn' = S2.conn /\ connT' = S2.connT /\ rStart' = S2.rStart
        /\ rCount' = S2.rCount /\ arrived' = S2.arrived /\ early' = S2.early /\ peer' = S2.peer
-       /\ ret' = IF h = 0 THEN ret ELSE [ret EXCEPT ![h] = @ + 1]
+       /\ pushed' = pushedF /\ cfg' = (IF h = -1 \/ h \in ConfReqs THEN 0 ELSE S2.cfg)
+       /\ ret' = IF h <= 0 THEN ret ELSE [ret EXCEPT ![h] = @ + 1]
        /\ out' = [op |-> "run", h |-> h, hstate |-> hs,
-                  hcause |-> IF h # 0 /\ hs = "err" THEN S2.cause[h] ELSE NoCause,
-                  hsig |-> IF h # 0 /\ hs = "resp" THEN S2.sigok[h] ELSE FALSE,
-                  waiting |-> Cardinality(Outstanding(stF)),
+                  hcause |-> IF h > 0 /\ hs = "err" THEN S2.cause[h] ELSE NoCause,
+                  hsig |-> IF h > 0 /\ hs = "resp" THEN S2.sigok[h] ELSE FALSE,
+                  hcfg |-> IF hs \in {"push", "conf"} THEN S2.cfg ELSE 0,
+                  waiting |-> Cardinality(Outstanding(stF)) + (IF pushedF THEN 1 ELSE 0),
                   pending |-> Cardinality({r \in Reqs : stF[r] \in {"queued", "sent", "err"}}),
-                  received |-> Cardinality({r \in Reqs : stF[r] = "resp"})]
+                  received |-> Cardinality({r \in Reqs : stF[r] = "resp"}) + (IF pushedF THEN 1 ELSE 0)]
 
 Run(h) ==
     LET S == AfterRun IN
-    /\ IF Finished(S) = {} THEN h = 0 ELSE h \in Finished(S)
+    /\ IF SlotFinished(S) # {} THEN h \in SlotFinished(S) ELSE IF Finished(S) = {} THEN h = 0 ELSE h \in Finished(S)
     /\ Commit(S, h)
     /\ UNCHANGED <<id, addT, pollm, openm, clock, usedIds, xdone>>
 
 (* ------------------------------------------------------------------ environment *)
-Env == <<st, id, addT, sndT, cause, sigok, sendq, respq, conn, connT, rStart, rCount, usedIds, ret, arrived, early>>
+Env == <<st, id, addT, sndT, cause, sigok, sendq, respq, conn, connT, rStart, rCount, usedIds, ret, arrived, early, pushed, cfg>>
 (* HTTP: the exchange of a request that has been handed to the transport completes (each exchange at most once; it may outlive its request) *)
 ExchangeCompletes(e) == /\ Http /\ sndT[e.x] >= 0 /\ e.x \notin xdone
                         /\ wire' = Append(wire, e) /\ xdone' = xdone \cup {e.x}
@@ -251,22 +289,29 @@ ExactlyOnce == \A r \in Reqs : ret[r] <= 1 /\ (st[r] = "done" <=> ret[r] = 1)
 (* a response is stored only for a request whose valid reply arrived while it was waiting for it *)
 (* STRICT statement of the property; violated by the design (see PrematureReplyAccepted): kept to reproduce the finding *)
 ResponseOnlyIfValidReplyAfterSend ==
-    /\ \A r \in Reqs : st[r] = "resp" => arrived[r]
-    /\ (out.op = "run" /\ out.h # 0 /\ out.hstate = "resp") => arrived[out.h]
+    /\ \A r \in Reqs \ ConfReqs : st[r] = "resp" => arrived[r]
+    /\ (out.op = "run" /\ out.h > 0 /\ out.hstate = "resp") => arrived[out.h]
 (* what the code guarantees: the reply was read from the stream after the request was SUBMITTED (not necessarily sent):      *)
 (* named deviation PrematureReplyAccepted -- input is read before output is written within one run, matching happens after. *)
 ResponseOnlyIfValidReply ==
-    /\ \A r \in Reqs : st[r] = "resp" => (arrived[r] \/ early[r])
-    /\ (out.op = "run" /\ out.h # 0 /\ out.hstate = "resp") => (arrived[out.h] \/ early[out.h])
+    /\ \A r \in Reqs \ ConfReqs : st[r] = "resp" => (arrived[r] \/ early[r])
+    /\ (out.op = "run" /\ out.h > 0 /\ out.hstate = "resp") => (arrived[out.h] \/ early[out.h])
+(* a configuration request is answered, and a push is reported, only with a configuration that an authenticated PDU really carried *)
+ConfOnlyIfConfArrived ==
+    /\ \A r \in ConfReqs : st[r] = "resp" => cfg > 0
+    /\ pushed => cfg > 0
+    /\ (out.op = "run" /\ out.hstate \in {"push", "conf"}) => out.hcfg > 0
+(* the slot holds one thing: at most one configuration request is outstanding, and never together with an uncollected push *)
+OneSlot == Cardinality(LiveConf(st)) <= 1 /\ (pushed => LiveConf(st) = {})
 (* HTTP, STRICT statement: every request has a connection of its own, so bad data (unauthenticated or unparsable PDU) in the body of one        *)
 (* exchange is a cause that occurred for THAT exchange's request only.  Violated by the design: the response queue does not remember which     *)
 (* exchange a PDU came from and an authentication / parse failure fails every request waiting for a response (named deviation                 *)
 (* ErrorFanOutAcrossExchanges, finding F-C13-4).  badFrom = the requests whose own exchange delivered such a PDU (ghost, MC_AsyncService).     *)
 CauseOnOwnExchange(badFrom) == Http => \A r \in Reqs : (st[r] = "err" /\ cause[r][1] \in {"hmac", "parse"}) => r \in badFrom
 CountsAgree == out.op = "run" =>
-                  /\ out.waiting = Cardinality(Outstanding(st))
+                  /\ out.waiting = Cardinality(Outstanding(st)) + (IF pushed THEN 1 ELSE 0)
                   /\ out.pending + out.received = out.waiting
-RefusedOnlyWhenFull == out.op = "add" => (out.rc = "FULL" <=> st[out.r] = "refused")
+RefusedOnlyWhenFull == out.op = "add" => (out.rc \in {"FULL", "STATE"} <=> st[out.r] = "refused") /\ (out.rc = "STATE" => out.r \in ConfReqs) /\ (out.rc = "FULL" => out.r \notin ConfReqs)
 IdsDistinct == \A a, b \in Reqs : (a # b /\ id[a] # 0 /\ id[a] = id[b]) => FALSE
 (* an error carries a cause that really occurred *)
 RealCause(r, c) ==
@@ -276,8 +321,8 @@ RealCause(r, c) ==
                   \/ c[1] = "service"
                   \/ c = <<"code", 256>>               \* set only by Process for a misfitting reply bearing r's id
 CauseIsReal == /\ \A r \in Reqs : st[r] = "err" => RealCause(r, cause[r])
-               /\ (out.op = "run" /\ out.h # 0 /\ out.hstate = "err") => RealCause(out.h, out.hcause)
+               /\ (out.op = "run" /\ out.h > 0 /\ out.hstate = "err") => RealCause(out.h, out.hcause)
 TypeOK == /\ \A r \in Reqs : st[r] \in {"new", "queued", "sent", "resp", "err", "done", "refused"}
-          /\ Cardinality(Outstanding(st)) <= N
+          /\ Cardinality(Outstanding(st) \ ConfReqs) <= N
           /\ \A i \in DOMAIN sendq : sendq[i] \in Reqs
 =============================================================================
